@@ -467,6 +467,16 @@ def replay(path):
         print("replay names a proof obligation / correspondence, not an input:", d.get("what"))
         return 1
     out = Outcome()
+    if c.get("math"):
+        findings = common.load_findings(PROP)
+        o = _cl.run_cldrv([c])[0]
+        for m, rs in zip(c["math"], o.get("math") or []):
+            for v in math_oracle(m, rs):
+                f = common.match_finding(findings, v["rec"])
+                print(("known finding %s: " % f["id"] if f else "oracle: ") + v["what"])
+                if not f:
+                    out.oracle_violations.append(v)
+        return 1 if out.oracle_violations else 0
     run_cases([c], True, out, "r", _cl.consts())
     for v in out.oracle_violations:
         print("oracle:", v["what"])
